@@ -89,36 +89,10 @@ def relation_cases(draw, tier):
 
 @st.composite
 def system_cases(draw, tier):
-    n = draw(st.one_of(st.integers(2, 6), st.sampled_from([11, 12])))
-    m = draw(st.integers(2, min(4, n)))
-    lhs = draw(st.lists(st.integers(0, n - 1), min_size=m, max_size=m, unique=True))
-    if n > 10 and draw(st.booleans()):
-        lhs = draw(st.permutations(([1, 10, 11, 0] if n > 11 else [1, 10, 0, 2])[:m]))
-    free = [j for j in range(n) if j not in lhs]
-    locs = draw(sg.locals_dicts())
-    exact = draw(st.integers(0, 4)) > 0
-    rels = []
-    for i in lhs:
-        rels.append({'i': i, 'cmp': draw(st.sampled_from(sg.CMPS)),
-                     'rhs': draw(sg.trees(free, sorted(locs), depth=1, exact=exact))})
-    # same-lhs companions the parser explicitly supports
-    extra = draw(st.sampled_from(['', '', 'neq-same', 'neq-other', 'band']))
-    if extra:
-        r0 = rels[0]
-        if extra == 'band':
-            r0['cmp'] = '>='
-            comp = {'i': r0['i'], 'cmp': '<=', 'rhs': ['add', r0['rhs'], ['c', draw(st.sampled_from([0.0, 0.5, 2.5, 100.0]))]]}
-        else:
-            r0['cmp'] = draw(st.sampled_from(['<=', '>=', '<', '>']))
-            comp = {'i': r0['i'], 'cmp': '!=',
-                    'rhs': r0['rhs'] if extra == 'neq-same' else draw(sg.trees(free, sorted(locs), depth=1, exact=exact))}
-        rels.insert(draw(st.integers(0, len(rels))), comp)
-    tol, rel = draw(sg.tolerances())
-    return {'seed': draw(st.integers(0, 2 ** 20)), 'n': n, 'scheme': draw(sg.schemes(n)),
-            'pass_nvars': draw(st.booleans()), 'rels': rels, 'extra': extra, 'locals': locs, 'tol': tol, 'rel': rel,
-            'tight': draw(st.booleans()), 'blank': draw(st.booleans()),
-            'join': draw(st.sampled_from([None, None, 'and'] + ([] if extra.startswith('neq') else ['or']))),
-            'points': draw(_points(n, len(rels), 5))}
+    case = draw(sg.isolated_systems())
+    case['join'] = draw(st.sampled_from([None, None, 'and'] + ([] if case['extra'].startswith('neq') else ['or'])))
+    case['points'] = draw(_points(case['n'], len(case['rels']), 5))
+    return case
 
 
 def _dec15():
@@ -145,7 +119,7 @@ def bounds_cases(draw, tier, finite=True, pins=False):
         elif kind == 'pin' and symbolic and not pins:
             kind = 'both'
         if kind == 'both' and symbolic and a == b:       # pinned coordinates have their own test
-            b = a + 1.0
+            b = float(math.floor(a) + 2) if abs(a) < 1e14 else (2 * a if a > 0 else 0.0)   # still <= 15 digits
         if kind == 'pin':
             b = a
         lo.append(a if kind in ('both', 'lo', 'pin') else draw(st.sampled_from([None, '-inf'])))
@@ -331,12 +305,7 @@ def run_relation(case, ctx):
 # ------------------------------------------------------------------------------ systems
 def run_system(case, ctx):
     n = case['n']; rels = case['rels']; locs = case['locals']; tol = case['tol']; rel = case['rel']
-    names = sg.names_of(case['scheme'], n)
-    lines = [sg.render_line(['v', r['i']], r['cmp'], r['rhs'], names, case['tight'], '  ' if case['blank'] else '')
-             for r in rels]
-    text = ('\n\n' if case['blank'] else '\n').join(lines)
-    if case['blank']:
-        text = '\n' + text + '\n'
+    text = sg.system_text(case)
     solvers, generate_constraint = _build(case, text)
     ctx.expect(len(solvers) == len(rels), 'C13.one_solver_per_line', lambda: dict(text=text, n=len(solvers)))
     join = case['join']
@@ -379,15 +348,7 @@ def run_system(case, ctx):
                     if q['cmp'] == '!=' and q['i'] == r['i'] and abs(Fraction(g) - Fraction(fs[k])) <= Fraction(fzs[k]):
                         eff[k] = r['cmp'][0]
         was = [_classify(e, x0[r['i']], f, fz, tol, rel) for e, r, f, fz in zip(eff, rels, fs, fzs)]
-        # 'xi != g' next to a strict 'xi > f': the clip target f + tolerance(f) can coincide with g only when g
-        # lies inside the band of f; such constructed ties are skipped
-        tie = False
-        for kn, q in enumerate(rels):
-            for kc, r in enumerate(rels):
-                if q['cmp'] == '!=' and r['i'] == q['i'] and r['cmp'] in sg.STRICT and \
-                   abs(Fraction(fs[kn]) - Fraction(fs[kc])) <= 2 * sg.band_guard(fs[kc], tol, rel) + Fraction(fzs[kc]):
-                    tie = True
-        if tie:
+        if sg.neq_tie(rels, fs, fzs, tol, rel):
             ctx.exclude('neq-target-inside-band-of-strict-companion')
             continue
         y = c(xin)
